@@ -7,6 +7,9 @@ from .. import paths
 from ..core import FUNC, call_attr, calls_in, const, dotted, is_const, kwarg, norm, slice_parts, text, walk_local
 
 EXPLANATION = [
+    'C17.sdp-containment: DataElementParser records the end of the sequence being parsed and refuses (before descending) an element whose end lies past it, restoring the outer bound afterwards: the offset never moves backwards, so parsing is linear in the input.',
+    'C17.regex: no regular expression in hfp / at / transport has an unbounded repeat whose body starts and ends with unbounded repeats over overlapping character sets with only nullable items between (the shape that backtracks exponentially on a failing match); decided on the re._parser tree of every literal pattern.',
+    'C17.tx-progress: (shared with C20.progress) every path through one iteration of DLC.process_tx spends a tx credit or is the single credit-granting iteration: the loop ends after at most tx_credits + 1 rounds whatever frame size the peer negotiated.',
     'C17.cid-domain: the channel-table numbering rule of C09.cid-domain: a peer-chosen channel identifier in a signalling request is tested against the table keyed by peer identifiers, so a request re-using the source CID of an open channel is refused instead of overwriting its entry.',
     'C17.smp-sessions: the SMP session rules of C13.session-lifecycle (nothing is processed after the end of a session; a new Pairing Request replaces a finished session, the old one being ended before the new one is registered; keys are derived only after the key exchange): whatever SMP commands a peer sends, a later well-formed pairing on the same connection works.',
     'C17.dlc-sink: DLC.on_uih_frame calls its consumer inside try/except Exception, so hostile data that makes the consumer raise cannot desynchronise the RFCOMM credit ledgers.',
